@@ -325,6 +325,94 @@ theorem c19_pac_kind_after_merge_leaks (t : List HostPortUser) (r target : Bytes
   exact ⟨ascii "PAC: unsupported proxy " ++ (pacScheme p.mode ++ schemeSep ++ (escapeUser e.ui.user ++ [cColon])),
     [cAt] ++ (p.host ++ cColon :: p.port) ++ (ascii " for " ++ target), by simp⟩
 
+/-! ### loading an inline value: the error never quotes the value, whatever its white-space layout -/
+
+/-- `ReadFileOrBase64` on an inline value (anything that begins with `data:`), for every decoder: an
+    error is the fixed format message or `illegal base64 data at input byte <offset>` - a function of
+    the scheme / of a number, never text of the value (line breaks, TABs, blanks or not). -/
+theorem c19_inline_value_never_quoted_in_errors (dec : Decoder) (rest e : Bytes)
+    (h : readFileOrBase64 dec (dataPrefix ++ rest) = .error e) :
+    e = invalidDataURIText ∨ ∃ n, e = corruptInputText n := by
+  have hd : (dataPrefix ++ rest).drop 5 = rest := by simp [dataPrefix]
+  simp only [readFileOrBase64, dataPrefix_isPrefixOf, if_true, hd, readData] at h
+  have hstep : ∀ v, decodeStep dec v = .error e → ∃ n, e = corruptInputText n := by
+    intro v hv
+    unfold decodeStep at hv
+    split at hv
+    · cases hv
+    · injection hv with hv; exact ⟨_, hv.symm⟩
+  split at h
+  · split at h
+    · exact .inr (hstep _ h)
+    · injection h with h; exact .inl h.symm
+  · exact .inr (hstep _ h)
+
+/-- an inline value is never taken for a file name, and a value that is not inline never reaches the decoder -/
+theorem c19_inline_value_not_a_file (dec : Decoder) (rest name : Bytes) :
+    readFileOrBase64 dec (dataPrefix ++ rest) ≠ .file name := by
+  have hd : (dataPrefix ++ rest).drop 5 = rest := by simp [dataPrefix]
+  simp only [readFileOrBase64, dataPrefix_isPrefixOf, if_true, hd, readData]
+  intro h
+  have hstep : ∀ v, decodeStep dec v ≠ .file name := by
+    intro v hv
+    unfold decodeStep at hv
+    split at hv <;> cases hv
+  split at h
+  · split at h
+    · exact hstep _ h
+    · cases h
+  · exact hstep _ h
+
+/-- `data:base64,<q>`: the payload goes to the decoder as it is written -/
+theorem c19_inline_load_base64_form (dec : Decoder) (q : Bytes) :
+    readFileOrBase64 dec (inlineRaw true q) = decodeStep dec q := by
+  have hd : (dataPrefix ++ (fmtBase64 ++ [cComma] ++ q)).drop 5 = fmtBase64 ++ [cComma] ++ q := by simp [dataPrefix]
+  have hc : cutByte cComma (fmtBase64 ++ [cComma] ++ q) = some (fmtBase64, q) := by
+    simp [cutByte, fmtBase64, cComma]
+  have ht : trimSlashes (fmtBase64 ++ [cComma] ++ q) = fmtBase64 ++ [cComma] ++ q := by
+    simp [trimSlashes, fmtBase64, List.isPrefixOf]
+  simp only [inlineRaw, if_true, readFileOrBase64, dataPrefix_isPrefixOf, hd, readData, ht, hc]
+
+/-- the error of a refused `data:base64,<q>` value depends on the offset the decoder reports and on
+    nothing else: two payloads refused at the same offset give the same outcome -/
+theorem c19_inline_error_noninterference (dec : Decoder) (q₁ q₂ : Bytes) (n : Nat)
+    (h₁ : dec q₁ = .error n) (h₂ : dec q₂ = .error n) :
+    readFileOrBase64 dec (inlineRaw true q₁) = readFileOrBase64 dec (inlineRaw true q₂) := by
+  simp only [c19_inline_load_base64_form, decodeStep, h₁, h₂]
+
+/-- the white-space layout has no influence on what is loaded: with a decoder that skips CR and LF
+    (as encoding/base64 does) a payload wrapped at any width, with LF or CR LF, with or without a
+    final line break, loads exactly as the same payload on one line does -/
+theorem c19_inline_load_layout_independent (dec : Decoder) (hdec : dec.ignoresBreaks) (q : Bytes) :
+    (readFileOrBase64 dec (inlineRaw true q)).data? =
+      (readFileOrBase64 dec (inlineRaw true (stripBreaks q))).data? := by
+  simp only [c19_inline_load_base64_form, decodeStep]
+  have h := hdec q
+  cases h1 : dec q <;> cases h2 : dec (stripBreaks q) <;> simp_all [Loaded.data?, Except.toOption]
+
+/-- FULL-STRENGTH STATEMENT for the variant that parses the value as a URL first: false -/
+def c19_inline_parsed_variant_statement : Prop :=
+  ∀ (dec : Decoder) (rest e : Bytes), readFileOrBase64Parsed dec (dataPrefix ++ rest) = .error e →
+    e = invalidDataURIText ∨ ∃ n, e = corruptInputText n
+
+/-- witness: `data:base64,QUJD\nREVG` (a payload wrapped by base64(1)) - the variant's error is
+    `parse "data:base64,QUJD\nREVG": net/url: invalid control character in URL` -/
+theorem c19_inline_parsed_variant_witness : ¬ c19_inline_parsed_variant_statement := by
+  intro h
+  have h' := h (fun _ => .ok []) (ascii "base64,QUJD" ++ [10] ++ ascii "REVG")
+    (urlParseErrorText (dataPrefix ++ (ascii "base64,QUJD" ++ [10] ++ ascii "REVG"))) (by decide +kernel)
+  rcases h' with h' | ⟨n, h'⟩
+  · revert h'; decide +kernel
+  · have := congrArg List.head? h'
+    simp [urlParseErrorText, corruptInputText, corruptPrefix, ascii] at this
+
+/-- the variant in general: every inline value with a control character in it is refused with the
+    error that quotes it -/
+theorem c19_inline_parsed_variant_quotes_value (dec : Decoder) (rest : Bytes) (h : rest.any isCtl = true) :
+    readFileOrBase64Parsed dec (dataPrefix ++ rest) = .error (urlParseErrorText (dataPrefix ++ rest)) := by
+  have : (dataPrefix ++ rest).any isCtl = true := by simp [List.any_append, h]
+  simp [readFileOrBase64Parsed, dataPrefix_isPrefixOf, this]
+
 /-! ### the flag table extracted from the sources -/
 
 /-- flags whose values carry passwords or inline (`data:`) key material -/
@@ -487,6 +575,23 @@ example : credTable exPub.credentials 0 (exSec [65]).credentials =
      ⟨ascii "*", ascii "0", ⟨ascii "any", some (ascii "Ac@p:w1")⟩⟩] := by decide +kernel
 /-- a flag without redactor is noticed: `pac` is declared with `NewValue` -/
 example : declaredWithRedactor flagTable "pac" = false := by decide +kernel
+
+/-- loading inline values: the unchanged code on a wrapped payload (a decoder that refuses everything at
+    offset 4 / accepts everything), and what the url.Parse variant prints for it -/
+example : readFileOrBase64 (fun _ => .error 4) (ascii "data:base64,QUJD" ++ [10] ++ ascii "REVG") =
+    .error (ascii "illegal base64 data at input byte 4") := by decide +kernel
+example : readFileOrBase64 (fun v => .ok v) (ascii "data:base64,QUJD" ++ [10] ++ ascii "REVG") =
+    .data (ascii "QUJD" ++ [10] ++ ascii "REVG") := by decide +kernel
+example : readFileOrBase64 (fun v => .ok v) (ascii "data:application/x-pem-file;base64,QUJD") =
+    .error invalidDataURIText := by decide +kernel
+example : readFileOrBase64 (fun v => .ok v) (ascii " data:base64,QUJD") = .file (ascii " data:base64,QUJD") := by
+  decide +kernel
+example : readFileOrBase64Parsed (fun v => .ok v) (ascii "data:base64,QUJD" ++ [10] ++ ascii "REVG") =
+    .error (ascii "parse \"data:base64,QUJD\\nREVG\": net/url: invalid control character in URL") := by decide +kernel
+example : isInfix (ascii "QUJD") (urlParseErrorText (ascii "data:base64,QUJD" ++ [9] ++ ascii "REVG")) = true := by
+  decide +kernel
+example : corruptPrefix = ascii "illegal base64 data at input byte " := by decide +kernel
+example : stripBreaks (ascii "QUJD" ++ [13, 10] ++ ascii "REVG" ++ [10]) = ascii "QUJDREVG" := by decide +kernel
 
 end C19
 end FwdVerif
